@@ -290,7 +290,11 @@ func runC18(env *core.Env) {
 		}
 		// init on an existing store: changes no item, hides none, creates/truncates/shadows no log
 		if expLevel == j.start && j.sp.Name == "cwd" {
-			for _, form := range [][]string{{"--json", "init"}, {"--json", "init", "."}, {"--json", "init", filepath.Join(root, c18Levels[j.start])}} {
+			absStart := filepath.Join(root, c18Levels[j.start])
+			for _, form := range [][]string{{"--json", "init"}, {"--json", "init", "."}, {"--json", "init", absStart},
+				// --dir in every spelling the other commands accept, including the .ergo directory itself
+				{"--json", "--dir", ".", "init"}, {"--json", "--dir", absStart, "init"}, {"--json", "--dir", ".ergo", "init"},
+				{"--json", "--dir", filepath.Join(absStart, ".ergo"), "init"}, {"--json", "init", "--dir", ".ergo"}} {
 				tree.Materialize(root)
 				cwd := filepath.Join(root, c18Levels[j.start])
 				before := core.ObserveW(w, cwd)
@@ -314,6 +318,34 @@ func runC18(env *core.Env) {
 				for k, v := range tree {
 					if strings.HasSuffix(k, ".jsonl") && string(after[k]) != string(v) {
 						report(env, "C18 kind=init-alters-a-log", desc+": "+k+" changed", tr)
+					}
+				}
+				// init on an existing store creates nothing but (at most) the store's own missing lock / log file: no second store
+				for k := range after {
+					if _, was := tree[k]; was || strings.HasPrefix(k, "D:") {
+						continue
+					}
+					if dir := filepath.Dir(k); dir != filepath.Join(c18Levels[j.start], ".ergo") {
+						sig := "C18 kind=init-creates-files-outside-the-store"
+						if !env.ViolationSeen(sig) {
+							tr2 := tr
+							tr2.FailIf = []Assert{{Kind: "exit_zero", Step: 1}}
+							env.Violation(sig, desc+": `ergo "+strings.Join(form, " ")+"` on an existing store created "+k, tr2)
+						}
+					}
+				}
+				// and every spelling of the start directory still reaches the same items afterwards
+				for _, sp := range [][]string{{"--dir", ".ergo"}, {"--dir", filepath.Join(absStart, ".ergo")}, {"--dir", "."}} {
+					r := w.Run(core.Req{Cwd: cwd, Args: append(append([]string{"--json"}, sp...), "list", "--all"), RandBase: -1})
+					b := w.Run(core.Req{Cwd: cwd, Args: []string{"--json", "list", "--all"}, RandBase: -1})
+					if r.Exit != b.Exit || string(r.Out) != string(b.Out) {
+						sig := "C18 kind=init-hides-the-store-for-a-spelling"
+						if !env.ViolationSeen(sig) {
+							tr2 := tr
+							tr2.Steps = append(append([]core.Req{}, tr.Steps...), core.Req{Cwd: c18Levels[j.start], Args: append(append([]string{"--json"}, sp...), "list", "--all"), RandBase: -1})
+							tr2.FailIf = []Assert{{Kind: "exit_zero", Step: 1}}
+							env.Violation(sig, desc+": after `ergo "+strings.Join(form, " ")+"`, `ergo --json "+strings.Join(sp, " ")+" list --all` prints "+clipS(string(r.Out), 80)+" but plain `list --all` prints "+clipS(string(b.Out), 80), tr2)
+						}
 					}
 				}
 			}
